@@ -215,6 +215,11 @@ func (opt *Option) DeepCopy() Option {
 	for _, assignment := range opt.Assignments {
 		clone.Assignments = append(clone.Assignments, assignment.DeepCopy())
 	}
+	if opt.Default != nil {
+		clone.Default = &OptionDefault{
+			ArgsValues: append([]any(nil), opt.Default.ArgsValues...),
+		}
+	}
 
 	return clone
 }
